@@ -2,8 +2,8 @@
    Model.Reactor mirrors chython/reactor/base.py (BaseReactor._get_deleted as it is after fix: b90326c, the structural
    part of BaseReactor._patcher) and chython/reactor/reactor.py:fix_mapping_overlap. *)
 From Coq Require Import ZArith List Bool Permutation.
-From Model Require Import PyBase Graph Reactor ReactorStage Stereo.
-From Proofs Require Import ReactorProofs ReactorExt ReactorEquiv StereoProofs ReactorStereo.
+From Model Require Import PyBase Graph Reactor ReactorStage ReactorQueue Stereo.
+From Proofs Require Import ReactorProofs ReactorExt ReactorEquiv ReactorCompose StereoProofs ReactorStereo ReactorStereo2 ReactorQueueProofs.
 Import ListNotations.
 Open Scope Z_scope.
 
@@ -507,3 +507,113 @@ Theorem C16_untouched_centre_example :
     untouched_label [2] st_mol 2 = Some true.
 Proof. exact untouched_centre_example. Qed.
 Print Assumptions C16_untouched_centre_example.
+
+(* ====================================================================================================
+   Template application as it is called (to_delete = _get_deleted(structure, mapping)) commutes with a renumbering of the
+   structure: C16_patcher_equivariant composed with C16_get_deleted_equivariant
+   ==================================================================================================== *)
+Theorem C16_template_application_equivariant : forall (s : Z -> Z) g mapping to_del tpl new mp' mx mx',
+  (forall a b, s a = s b -> a = b) -> (forall x, In x (ids g) -> 0 < s x) ->
+  wf_mol g = true -> (forall x, In x (ids g) -> 0 < x) ->
+  zmax_list (ids g) = Some mx -> zmax_list (map s (ids g)) = Some mx' ->
+  (forall k v, In (k, v) mapping -> In v (ids g)) ->
+  (forall p, In p to_del -> exists v, zget mapping p = Some v) ->
+  patcher_with get_deleted g mapping to_del tpl = Ok (new, mp') ->
+  patcher_with get_deleted (rename_mol s g) (rename_match s mapping) to_del tpl =
+    Ok (rename_mol (extend_renumbering s mx mx') new, rename_match (extend_renumbering s mx mx') mp').
+Proof. exact template_application_equivariant. Qed.
+Print Assumptions C16_template_application_equivariant.
+
+Theorem C16_template_application_equivariant_example :
+  let s := fun x => 10 - x in
+  (forall a b, s a = s b -> a = b) /\ (forall x, In x (ids ex_mol) -> 0 < s x) /\
+  (forall p, In p [4] -> exists v, zget ex_mapping p = Some v) /\
+  exists new mp', patcher_with get_deleted ex_mol ex_mapping [4] ex_tpl = Ok (new, mp') /\
+    patcher_with get_deleted (rename_mol s ex_mol) (rename_match s ex_mapping) [4] ex_tpl =
+      Ok (rename_mol (extend_renumbering s 6 9) new, rename_match (extend_renumbering s 6 9) mp') /\
+    ids (rename_mol (extend_renumbering s 6 9) new) = [8; 7; 6; 10; 9].
+Proof. exact template_application_equivariant_example. Qed.
+Print Assumptions C16_template_application_equivariant_example.
+
+(* ====================================================================================================
+   Cis/trans bonds and allenes the template does not touch (Model.Stereo.translate_env = the C12 model of the tail of
+   _translate_cis_trans_sign / _translate_allene_sign, over the regenerated alkene table)
+   ==================================================================================================== *)
+Theorem C16_translate_env_same : forall (isH : Z -> bool) n0 n1 o2 o3 s, translate_env isH (n0, n1, o2, o3) n0 n1 s = Ok s.
+Proof. exact translate_env_same. Qed.
+Print Assumptions C16_translate_env_same.
+
+(* the environment survives as a set but is listed in another arrangement (a patched end atom): the label the loop stores,
+   read again through the old opposite neighbours, is the old label -- in both orientations of the path *)
+Theorem C16_translate_env_roundtrip4 : forall (isH : Z -> bool) m0 m1 m2 m3 a b s r,
+  NoDup [m0; m1; m2; m3] -> In a [0; 2] -> In b [1; 3] ->
+  let nn := StereoProofs.pick (m0, m1, m2, m3) a in let nm := StereoProofs.pick (m0, m1, m2, m3) b in
+  (translate_env isH (m0, m1, Some m2, Some m3) nn nm s = Ok r -> translate_env isH (m0, m1, Some m2, Some m3) nn nm r = Ok s) /\
+  (translate_env isH (m0, m1, Some m2, Some m3) nm nn s = Ok r -> translate_env isH (m0, m1, Some m2, Some m3) nm nn r = Ok s).
+Proof. exact translate_env_roundtrip4. Qed.
+Print Assumptions C16_translate_env_roundtrip4.
+
+Theorem C16_translate_env_roundtripH : forall (isH : Z -> bool) m0 m1 hA hB a b s r,
+  m0 <> m1 -> isH m0 = false -> isH m1 = false -> isH hA = true -> isH hB = true -> In a [0; 2] -> In b [1; 3] ->
+  let nn := StereoProofs.pick (m0, m1, hA, hB) a in let nm := StereoProofs.pick (m0, m1, hA, hB) b in
+  translate_env isH (m0, m1, None, None) nn nm s = Ok r -> translate_env isH (m0, m1, None, None) nn nm r = Ok s.
+Proof. exact translate_env_roundtripH. Qed.
+Print Assumptions C16_translate_env_roundtripH.
+
+(* both terminal atoms of the cumulene are untouched and keep all their neighbours (hydrogens staying hydrogens): the
+   registry entry of the product IS the entry of the input, and the label the translation loop computes from s is s *)
+Theorem C16_untouched_cumulene_same_configuration : forall g mapping tpl del new mp',
+  patcher g mapping tpl del = Ok (new, mp') -> wf_mol g = true -> (forall y, In y (ids g) -> 0 < y) ->
+  forall (isH isH' : Z -> bool) t1 i1 t2 i2,
+    intact g tpl del mp' isH isH' t1 -> intact g tpl del mp' isH isH' t2 ->
+    cum_env isH' new t1 i1 t2 i2 = cum_env isH g t1 i1 t2 i2 /\
+    forall e s, cum_env isH g t1 i1 t2 i2 = Some e ->
+      patched_cum_label isH isH' g new t1 i1 t2 i2 s = Ok (Some s) /\
+      translate_env isH' e (fst (fst (fst e))) (snd (fst (fst e))) s = Ok s.
+Proof. exact untouched_cumulene_same_configuration. Qed.
+Print Assumptions C16_untouched_cumulene_same_configuration.
+
+Theorem C16_untouched_cumulene_example :
+  wf_mol ct_mol = true /\
+  exists new mp', patcher ct_mol [(1, 5); (2, 6)] st_tpl [] = Ok (new, mp') /\
+    cum_env (is_H_atom ct_mol) ct_mol 2 3 3 2 = Some (1, 4, None, None) /\
+    cum_env (is_H_atom new) new 2 3 3 2 = Some (1, 4, None, None) /\
+    patched_cum_label (is_H_atom ct_mol) (is_H_atom new) ct_mol new 2 3 3 2 true = Ok (Some true).
+Proof. exact untouched_cumulene_example. Qed.
+Print Assumptions C16_untouched_cumulene_example.
+
+(* ====================================================================================================
+   Reactor.__call__ with one_shot=False (Model.ReactorQueue: the queue, the seen set, the depth limit, the expansion by
+   combinations / permutations; generic in the type of molecules; _single_stage, r.products after contract_ions, str(r) and
+   permutations(fix_mapping_overlap(...)) are Section variables)
+   ==================================================================================================== *)
+(* nothing is yielded twice, and everything yielded is one single stage applied to an item that a chain of single stages
+   reaches from the initial choices -- for every fuel, also when an exception ends the generator *)
+Theorem C16_exhaustive_sound : forall (M K : Type) (key_eqb : K -> K -> bool) stage finish (key : list M -> K) operms
+    n_patterns n_products limit,
+  (forall a b, key_eqb a b = true <-> a = b) ->
+  forall structures fuel ys e ok,
+    exhaustive M K key_eqb stage finish key operms n_patterns n_products limit structures fuel = (ys, e, ok) ->
+    NoDup (map key ys) /\
+    Forall (yielded_from M stage finish operms n_patterns limit (init_queue M n_patterns structures)) ys.
+Proof. exact exhaustive_sound. Qed.
+Print Assumptions C16_exhaustive_sound.
+
+(* the same from any queue and any seen set: what is yielded is new with respect to `seen` *)
+Theorem C16_run_sound : forall (M K : Type) (key_eqb : K -> K -> bool) stage finish (key : list M -> K) operms
+    n_patterns n_products limit,
+  (forall a b, key_eqb a b = true <-> a = b) ->
+  forall init fuel queue seen ys e ok,
+    run M K key_eqb stage finish key operms n_patterns n_products limit fuel queue seen = (ys, e, ok) ->
+    (forall it, In it queue -> reach M stage finish operms n_patterns limit init it) ->
+    NoDup (map key ys) /\ (forall y, In y ys -> ~ In (key y) seen) /\
+    Forall (yielded_from M stage finish operms n_patterns limit init) ys.
+Proof. exact run_sound. Qed.
+Print Assumptions C16_run_sound.
+
+Theorem C16_exhaustive_example :
+  exhaustive Z (list Z) zl_eqb q_stage (fun new ign => new ++ ign) (fun p => p) (fun ms => [ms]) 1 1 3 [1%Z; 2%Z] 50
+    = ([[3; 2]; [4; 2]]%Z, None, true) /\
+  (forall a b, zl_eqb a b = true <-> a = b).
+Proof. exact exhaustive_example. Qed.
+Print Assumptions C16_exhaustive_example.
